@@ -95,8 +95,11 @@ func (s *CDCStreamer) CommitHook() bool {
 	default:
 		stats.Add(cdcDroppedEvents, 1)
 	}
+	// A single log entry can commit more than once (e.g. a multi-statement request
+	// that is not a transaction), so keep labelling events with the entry's index.
 	s.pending = &command.CDCIndexedEventGroup{
 		Events: make([]*command.CDCEvent, 0),
+		Index:  s.pending.Index,
 	}
 	return true
 }
